@@ -144,6 +144,48 @@ class NotBatchable(Exception):
     pass
 
 
+class _Opaque:
+    pass
+
+
+def _r_int(v): int(v)
+def _r_float(v): float(v)
+def _r_in(v): 0 in _Opaque()
+def _r_missing(v): (lambda argument: None)()
+def _r_unexpected(v): (lambda: None)(batch=v)
+def _r_hash(v): {v: 1}
+def _r_add(v): v + 1
+def _r_round(v): round(v)
+def _r_attr(v): v.shape
+def _r_attr_score(v): raise AttributeError("'%s' object has no attribute 'score'" % type(v).__name__)
+def _r_index(v): [][len(v)]
+def _r_key(v): {}["argument"]
+def _r_value(v): float("argument")
+def _r_zero(v): 1 / 0
+def _r_assert(v): assert not is_batch(v), "one interaction at a time"
+def _r_notimpl(v): raise NotImplementedError("batches are not implemented")
+def _r_runtime(v): raise RuntimeError("bad argument: a batch")
+def _r_learn_missing(v): raise TypeError("learn() missing 1 required positional argument: 'probability'")
+
+
+# how an ordinary one-interaction-at-a-time learner fails when its first operation touches a batched value (round g): the real
+# CPython exceptions of int()/float()/in/hash/arithmetic/attribute access/indexing ..., incl. TypeErrors whose text mentions
+# "argument", "missing", "got an unexpected" and AttributeErrors mentioning 'score' (the texts SafeLearner itself looks for elsewhere)
+REFUSALS = {"int": _r_int, "float": _r_float, "in": _r_in, "missing": _r_missing, "unexpected": _r_unexpected, "hash": _r_hash,
+            "add": _r_add, "round": _r_round, "attr": _r_attr, "attr_score": _r_attr_score, "index": _r_index, "key": _r_key,
+            "value": _r_value, "zero": _r_zero, "assert": _r_assert, "notimpl": _r_notimpl, "runtime": _r_runtime,
+            "learn_missing": _r_learn_missing}
+
+
+def refuse(flavour, v, default):
+    """raise what a batch-unaware learner of this flavour raises when handed the batched value v"""
+    f = REFUSALS.get(flavour)
+    if f is None:
+        raise NotBatchable(default)
+    f(v)
+    raise NotBatchable(default)       # not reached: every flavour raises
+
+
 class Scripted:
     """Answers `predict` in ONE documented format, consistently; records everything it is given."""
 
@@ -233,7 +275,7 @@ class Scripted:
                 return None
             if self.nobatch == "keyerror":
                 return self._single(context[0], actions)     # treats the batch of action lists as one action list -> KeyError
-            raise NotBatchable(self.nobatch)
+            refuse(self.nobatch, context if is_batch(context) else actions, self.nobatch)
         n = len(actions)
         ctxs = context if is_batch(context) else [context] * n
         rows = [self._row(c, a) for c, a in zip(ctxs, actions)]
@@ -271,7 +313,7 @@ class Scripted:
             row = self._row(context, actions)
             return dec(row["p"]) if action == actions[row["pick"]] else 0.0
         if not self.score_batch:
-            raise NotBatchable("this learner cannot score batches")
+            refuse(self.nobatch, next(v for v in (context, actions, action) if is_batch(v)), "this learner cannot score batches")
         out = []
         for c, A, x in zip(context, actions, action):
             row = self._row(c, A)
@@ -282,7 +324,7 @@ class Scripted:
         batched = is_batch(context) or is_batch(action) or is_batch(reward)
         if batched and not self.learn_batch:
             self.learn_calls.append(("rejected",))
-            raise NotBatchable("this learner cannot learn from batches")
+            refuse(self.nobatch, next(v for v in (context, action, reward) if is_batch(v)), "this learner cannot learn from batches")
         self.learn_calls.append((batched, context, action, reward, probability, kwargs))
 
 
